@@ -204,6 +204,82 @@ theorem C07_failed_allocation_state {s s' : St} {i : Nat} {strict : Bool} {n0 n1
     obtain ⟨t1, t2, t3, t4, t5, _⟩ := allocTick_frame s1
     exact ⟨a, ha, Or.inr (Or.inr ⟨s1, hr, hf, allocTick_failed s1 hf, t1, t3, t4, t5, by simp [setObj, t2, hp]⟩)⟩
 
+/-- An Array CONSTRUCTED FROM AN INITIALIZER LIST (`Array(std::initializer_list…)`: empty, then `*this = list`) is a fresh owner or
+    nothing: when the constructor returns, the pool has grown by exactly one object which is the packed owner of a Storage created by
+    this call, with ONE link, not freed, of the data volume of its extents and active exactly when the class is (so that
+    `C07_gradients_exact` counts its elements); when its allocation throws `std::bad_alloc`, NO object exists and nothing is held; a
+    list with an empty level leaves the cleared array.  The invariant holds in each case. -/
+theorem C07_list_ctor_fresh_owner {s s' : St} {k : Kind} {n0 n1 : Nat} {v0 : Int} (I : Inv s)
+    (h : step s (.newList k n0 n1 v0) = .ok s') :
+    Inv s' ∧
+    (s'.pool = s.pool ++ [blank k] ∨
+     (∃ m0 m1, s'.pool = s.pool ++ [ownerOf k s.heap.length m0 m1] ∧
+        s'.heap[s.heap.length]? = some { nLinks := 1, freed := false, size := dataVolume k m0 m1, active := k.active }) ∨
+     (s'.pool = s.pool ∧ s'.thrown = true)) := by
+  refine ⟨inv_step _ I h, ?_⟩
+  have I0 : Inv { s with thrown := false } := ⟨I.core, I.grad⟩
+  simp only [step, stepCore, newListAt] at h
+  split at h
+  · cases h
+  · unfold newAt at h
+    split at h
+    · cases h
+    · rename_i s1 hr
+      have Ip := push_blank_inv I0 k
+      have hget : (push { s with thrown := false } (blank k)).pool[s.pool.length]? = some (blank k) := by
+        simp [push]
+      have hsp := resizeAt_spec Ip hget hr
+      have hset : ∀ o : Obj, (push { s with thrown := false } (blank k)).pool.set s.pool.length o = s.pool ++ [o] := by
+        intro o; simp [push]
+      split at h
+      · rename_i ht
+        cases h
+        refine Or.inr (Or.inr ⟨?_, ht⟩)
+        have herase : ∀ o : Obj, (s.pool ++ [o]).eraseIdx s.pool.length = s.pool := by
+          intro o
+          rw [List.eraseIdx_append_of_length_le (Nat.le_refl _)]
+          simp
+        show s1.pool.eraseIdx s.pool.length = s.pool
+        rcases hsp with hp | ⟨m0, m1, hp, _⟩ | ⟨hp, _⟩
+        · rw [hp, hset, herase]
+        · rw [hp, hset, herase]
+        · rw [hp, hset, herase]
+      · cases h
+        rcases hsp with hp | ⟨m0, m1, hp, hh⟩ | ⟨hp, ht'⟩
+        · left; rw [hp, hset]; rfl
+        · right; left
+          refine ⟨m0, m1, ?_, ?_⟩
+          · rw [hp, hset]; rfl
+          · simpa [push, blank] using hh
+        · rename_i ht
+          exact absurd ht' ht
+
+/-- A vector ASSIGNED AN INITIALIZER LIST keeps what it holds when it has elements: the list is stored through its existing view
+    (no object, Storage, link count or gradient registration changes); a list longer than the vector is REJECTED with size_mismatch
+    (and a rejected operation is the identity, `C07_rejected_is_identity`); an `empty()` vector — also an empty VIEW, which holds a
+    link — is resized: that is `C07_failed_allocation_state`'s trichotomy. -/
+theorem C07_list_assign_in_place {s s' : St} {i n : Nat} {v0 : Int} {a : Obj} (ha : s.pool[i]? = some a) (hv : a.kind.isVec = true)
+    (hn : n ≠ 0) :
+    (a.len ≠ 0 → a.len < n → step s (.assignList i n v0) = .error .sizeMismatch) ∧
+    (a.len ≠ 0 → step s (.assignList i n v0) = .ok s' →
+       s'.heap = s.heap ∧ s'.pool = s.pool ∧ nStorageObjects s' = nStorageObjects s ∧ s'.gradReg = s.gradReg) ∧
+    (a.len = 0 → step s (.assignList i n v0) = resizeAt { s with thrown := false } i false n 0 v0) := by
+  have hg : getObj { s with thrown := false } i = .ok a := by simp [getObj, ha]
+  refine ⟨?_, ?_, ?_⟩
+  · intro h0 hlt
+    simp [step, stepCore, assignListAt, hg, hv, hn, h0, hlt]
+  · intro h0 h
+    simp only [step, stepCore, assignListAt, hg] at h
+    split at h
+    · cases h
+    · try rw [if_neg h0] at h
+      split at h
+      · cases h
+      · obtain ⟨a1, a2, a3, a4, a5⟩ := writeCells_frame _ _ _ _ h
+        exact ⟨a1, a2, by simp [nStorageObjects, a3, a4], a5⟩
+  · intro h0
+    simp [step, stepCore, assignListAt, hg, hv, hn, h0]
+
 /-- an object without a Storage — in particular the empty one a failed allocation leaves — gives nothing back: its
     `clear`/destructor touches no count -/
 theorem C07_storageless_release_is_noop {s : St} {i : Nat} {a : Obj} (ha : s.pool[i]? = some a) (hs : a.storage = none) :
@@ -398,5 +474,19 @@ theorem C07_view_zero_extent_canonical (b : Obj) (v : ViewSpec) :
 
 example : (viewObject { kind := .mat, len := 3, len1 := 4, stride := 4, stride1 := 1 }
             { kind := .mat, delta := 8, d0 := 0, d1 := 4, s0 := 4, s1 := 1 }).len1 = 0 := by decide
+
+/-! Non-vacuity of `C07_list_ctor_fresh_owner` / `C07_list_assign_in_place`: an active vector made from the list {5,6,7} (three gradients),
+a 2x3 matrix made from a nested list, an EMPTY view of the vector (it holds a link) assigned a list of two (it gives the link back and
+owns a new active Storage of two), the vector assigned a shorter list in place, the vector destroyed (its Storage is freed exactly then,
+its three gradients go); a list of four is rejected by the 2-element vector. -/
+example :
+    let s := run init [.newList .avec 3 0 5, .newList .mat 2 3 1, .view 0 (.slice 2 1 1), .assignList 2 2 40, .assignList 0 2 7,
+                       .destroy 0]
+    s.pool.map (fun o => (o.len, o.len1, o.storage)) = [(2, 3, some 1), (2, 0, some 2)] ∧
+    s.heap.map (fun r => (r.nLinks, r.freed, r.size, r.active)) = [(0, true, 3, true), (1, false, 6, false), (1, false, 2, true)] ∧
+    s.gradReg = 2 ∧ nStorageObjects s = 2 ∧
+    errOf (step s (.assignList 1 4 0)) = some .sizeMismatch ∧
+    errOf (step s (.newList .symm 3 0 1)) = some .badOp := by
+  decide
 
 end Adept.Storage
